@@ -192,6 +192,20 @@ fn s_of(v: &Value) -> String {
     String::from_utf8(unhex(v.as_str().unwrap_or("-"))).unwrap()
 }
 
+/// a Message built through the public builder from the fields of the op (subject, body, optional explicit envelope sender), with a fixed date
+fn message_of(op: &Value) -> Result<lettre::Message, String> {
+    let subj = String::from_utf8(unhex(op["subject"].as_str().unwrap_or(""))).map_err(|_| "utf8".to_string())?;
+    let body = String::from_utf8(unhex(op["body"].as_str().unwrap_or(""))).map_err(|_| "utf8".to_string())?;
+    let mut b = lettre::Message::builder().from("Fr Om <a@x.org>".parse().unwrap()).to("b@y.org".parse().unwrap()).cc("c@z.org".parse().unwrap())
+        .bcc("h@w.org".parse().unwrap()).subject(subj).date(std::time::UNIX_EPOCH + Duration::from_secs(1_700_000_000));
+    if op["keep_bcc"].as_bool().unwrap_or(false) { b = b.keep_bcc(); }
+    b.body(body).map_err(|e| e.to_string())
+}
+fn render_msg(r: &Result<Response, Error>, m: &lettre::Message) -> Value {
+    let env = m.envelope();
+    json!({"res": render(r), "formatted": hex(&m.formatted()), "from": env.from().map(|a| a.to_string()), "to": env.to().iter().map(|a| a.to_string()).collect::<Vec<_>>()})
+}
+
 fn envelope_of(op: &Value) -> Result<Envelope, String> {
     let from = match &op["from"] {
         Value::Null => None,
@@ -327,6 +341,11 @@ fn run_sync(ops: &[Value], port: u16, timeout: Duration) -> (Vec<Value>, Vec<u64
                 (None, _) => json!("skip"),
                 (_, Err(e)) => json!(format!("skip:{e}")),
             },
+            "tsend_msg" => match (tr.as_ref(), message_of(op)) {
+                (Some(t), Ok(m)) => { let r = t.send(&m); render_msg(&r, &m) }
+                (None, _) => json!("skip"),
+                (_, Err(e)) => json!(format!("skip:{e}")),
+            },
             "ttest" => match tr.as_ref() {
                 Some(t) => match t.test_connection() { Ok(b) => json!(format!("bool,{}", b as u8)), Err(e) => render_err(&e) },
                 None => json!("skip"),
@@ -423,6 +442,11 @@ async fn run_tokio(ops: &[Value], port: u16, timeout: Duration) -> (Vec<Value>, 
             }
             "tsend" => match (tr.as_ref(), envelope_of(op)) {
                 (Some(t), Ok(env)) => render(&t.send_raw(&env, &msg_of(op)).await),
+                (None, _) => json!("skip"),
+                (_, Err(e)) => json!(format!("skip:{e}")),
+            },
+            "tsend_msg" => match (tr.as_ref(), message_of(op)) {
+                (Some(t), Ok(m)) => { let r = t.send(m.clone()).await; render_msg(&r, &m) }
                 (None, _) => json!("skip"),
                 (_, Err(e)) => json!(format!("skip:{e}")),
             },
